@@ -53,7 +53,7 @@ def plan(tier, prop):
                             "fatal_error", "dup_reply_ignored",
                             "late_reply_in_later_burst",
                             "retryable_discarded", "window_full",
-                            "seq_wrap", "falsy_callable_callback"] + ([] if quick else
+                            "seq_wrap", "falsy_callable_callback", "full_size_reply"] + ([] if quick else
                                            ["seq_skip_outstanding"]),
         "knob_ranges": {"n_tries": "1-5", "timeout": TIMEOUTS,
                         "window": "1-16", "buffer_size": BUFFERS,
@@ -165,8 +165,15 @@ class Engine(object):
         data = b""
         if c is not None:
             copy = len(c.replies)
+            # mostly short; now and then a reply that fills the buffer to
+            # the byte (the largest datagram rig must accept), or one less
+            k = (cid * 5 + copy * 3) % 16
+            n_rep = self.buffer_size - (15 - k) if k >= 14 else \
+                (cid + copy) % 9
+            if k >= 14:
+                w.probe("full_size_reply")
             data = bytes(((cid * 7 + copy * 13 + i) & 0xff)
-                         for i in range((cid + copy) % 9))
+                         for i in range(n_rep))
             c.replies.append((rc, copy, data))
         reply(wire.build_reply(r, rc, [cid if cid is not None else 0, copy,
                                        0xabcd0000 | (r.seq & 0xffff)], data))
